@@ -17,6 +17,7 @@ VH = os.path.join(HARNESS, "target", "release", "vh")
 EVIDENCE = os.path.join(VERIF, "evidence")
 REPLAY = os.path.join(VERIF, "replay")
 KNOWN = os.path.join(VERIF, "known_findings.json")
+os.environ.setdefault("VERIF_WORK", WORK)   # scratch directory the harness uses
 TLA_CP = "/opt/veriftools/tla/tla2tools.jar:/opt/veriftools/tla/CommunityModules-deps.jar"
 
 
@@ -67,6 +68,7 @@ def run_vh(args, stdin_path=None, stdout_path=None, timeout=1800, env_extra=None
     build_harness()
     env = dict(os.environ)
     env.setdefault("VERIF_SEED", str(seed()))
+    env.setdefault("VERIF_WORK", WORK)
     if env_extra:
         env.update(env_extra)
     fin = open(stdin_path, "rb") if stdin_path else subprocess.DEVNULL
